@@ -81,8 +81,22 @@ Decode(bytes) ==
      ELSE IF reserved THEN Fail("EitherError")
      ELSE Fail("ReadError")
 
-Matches(got, exp) == \/ got = exp
-                     \/ exp.r = "EitherError" /\ got.r \in {"ReadError", "InvalidOpcode"} /\ got.f = NoFrame /\ got.used = 0
+\* Judging an observed outcome `got` against the denotation `exp`.
+\* StrictMatches is what the decoder MODEL must satisfy.  Matches is what the STATEMENT of C10 demands of the real decoder
+\* (false-alarm audit): "reserved opcodes are rejected" does not name the error, so any error rejects; the key field of an
+\* unmasked frame carries no information; how many bytes the reader was asked for beyond the frame (`used`) is not part
+\* of "returns the same frame" and is reported separately (ConsumesExactly) as specification drift, not as a violation.
+NormKey(f) == [f EXCEPT !.key = IF f.mask = 1 THEN f.key ELSE <<0, 0, 0, 0>>]
+IsError(r) == r \notin {"ok", "panic"}
+StrictMatches(got, exp) ==
+  \/ got = exp
+  \/ exp.r = "EitherError" /\ got.r \in {"ReadError", "InvalidOpcode"} /\ got.f = NoFrame /\ got.used = 0
+Matches(got, exp) ==
+  \/ exp.r = "ok" /\ got.r = "ok" /\ NormKey(got.f) = NormKey(exp.f)
+  \/ exp.r = "ReadError" /\ got.r = "ReadError"
+  \/ exp.r \in {"InvalidOpcode", "EitherError"} /\ IsError(got.r)
+ConsumesExactly(got, exp) == got.r = "ok" => got.used = exp.used
+SameErrorKind(got, exp) == exp.r = "InvalidOpcode" => got.r = "InvalidOpcode"
 
 \* the round trip of the statement
 Unmasked(f) == [f EXCEPT !.payload = IF f.mask = 1 THEN Unmask(f.payload, f.key) ELSE f.payload,
@@ -187,7 +201,7 @@ Next == Net_Deliver \/ Net_Close \/ Dec_Header \/ Dec_Len16 \/ Dec_Len64 \/ Dec_
 Outcome == [r |-> res, f |-> fr, used |-> IF res = "ok" THEN cons ELSE 0]
 \* whatever the delivery schedule, the decoder ends with what Decode says about everything that was sent,
 \* and never looks at bytes that have not arrived
-DecoderCorrect == res # "run" => Matches(Outcome, Decode(wire))
+DecoderCorrect == res # "run" => StrictMatches(Outcome, Decode(wire))
 NoReadAhead == cons <= sent /\ sent <= Len(wire)
 \* a complete frame is returned without waiting for more input or for the peer to close
 Prompt == (res = "run" /\ Decode(SubSeq(wire, 1, sent)).r = "ok") => ENABLED (Dec_Header \/ Dec_Len16 \/ Dec_Len64 \/ Dec_Key \/ Dec_Payload)
